@@ -250,6 +250,8 @@ fn main() {
             match case["kind"].as_str().unwrap_or("") {
                 "lzma" => d_lzma::replay_value(case, &prop, &mut rep),
                 "bytes" => d_lzma::replay_bytes(case, &prop, &mut rep),
+                // fabrication probes depend on object histories: the whole (deterministic) probe set is run again
+                "fab" => d_lzma::fab_probes(&prop, case["seed"].as_u64().unwrap_or(1), case["n"].as_u64().unwrap_or(90) as usize, &mut rep),
                 "stream" => d_stream::replay_value(case, &prop, &mut rep),
                 "xz" | "xzbytes" => d_xz::replay_value(case, &prop, &mut rep),
                 "xzbig" => d_xz::big_valid(&prop, &mut rep),
